@@ -237,6 +237,9 @@ class GeckoAsyncSpaMan(ABC, AsyncTasks):
         self.cancel_key_tasks("SPAMAN")
         await self._handle_event(GeckoSpaEvent.SPA_MAN_EXIT, exc_info=exc_info)
         await AsyncTasks.__aexit__(self, exc_info)
+        # All the tasks have gone, so release the UDP endpoint of the connection
+        if self._spa is not None and self._spa._protocol is not None:
+            self._spa._protocol.disconnect()
 
     ########################################################################
     #
